@@ -16,8 +16,8 @@ RULE = ("fragment streams of real messages (2..4 fragments exhaustively, 5..7 ra
         "exactly one complete sent message (bytes, type, origin) and no message may be delivered "
         "twice. Non-trivial: >=1 enqueue accepted; distinct = distinct (fragment counts, senders, "
         "id relation, delivery pattern, dequeue points).")
-RULE += (" Later rounds added: tail-replay histories for types that coincide with fragment counters, queue-pressure histories, direct and multicast messages sharing origin and frame id (destination is part of a message's identity).")
-REQUIRED = {"dequeued_is_sent_message": 2000, "at_most_once": 2000, "histories": 5000}
+RULE += (" Later rounds added: tail-replay histories for types that coincide with fragment counters, queue-pressure histories, direct and multicast messages sharing origin and frame id (destination is part of a message's identity), two messages in a row under one kept header object (same origin, id, destination, type) with the first abandoned part-way and the queue filled in between.")
+REQUIRED = {"dequeued_is_sent_message": 2000, "at_most_once": 2000, "histories": 5000, "histories_id_reuse": 500}
 BUDGET = {"quick": 480, "thorough": 900}
 
 ME = 0o2
@@ -131,6 +131,32 @@ def gen_cases(ctx):
                     for deq in ([], [len(order)]):
                         yield {"msgs": [[0o3, 10, na, 70, first_to], [0o3, 10, nb, 71, second_to]],
                                "order": order, "deq": deq, "path": "radio" if (na + nb + keep_a) % 3 == 0 else "direct"}
+    # a kept header object: the same origin, frame id, destination and type for two messages in a
+    # row.  The first is abandoned after keep_a fragments (its sender gave up), the second arrives
+    # from its FIRST fragment on - complete, or with one later fragment lost or repeated - so all
+    # that may be delivered is the second message.  Optionally k unread single-frame messages
+    # arrive between the two (k = 6 fills the queue) and the application reads right after the
+    # second message's FIRST fragment
+    for na in (2, 3, 4):
+        for nb in (2, 3, 4):
+            for keep_a in range(1, na):
+                for k in (0, 5, 6):
+                    for var in range(2 * nb - 1):  # 0: complete; odd: fragment lost; even: repeated
+                        fi = 1 + (var - 1) // 2
+                        b = [[1, i] for i in range(nb)]
+                        if var and var % 2:
+                            b = [x for x in b if x[1] != fi]
+                        elif var:
+                            b = b[:fi + 1] + b[fi:]
+                        singles = [[0o5, 40 + i, 1, 80 + i] for i in range(k)]
+                        order = [[0, i] for i in range(keep_a)] + [[2 + i, 0] for i in range(k)] + b
+                        first_b = keep_a + k
+                        for deq in ([], [first_b + 1], [first_b], [len(order)]):
+                            if not k and deq == [first_b]:
+                                continue
+                            yield {"msgs": [[0o3, 10, na, 70], [0o3, 10, nb, 70]] + singles, "order": order,
+                                   "deq": deq, "path": "radio" if (na + nb + keep_a + var) % 4 == 0 else "direct",
+                                   "fam": "id-reuse"}
     # empty (header-only) messages between / after other traffic: they carry nothing over from
     # the frame that was handled before them
     for nfrag in (1, 2, 3):
@@ -240,6 +266,8 @@ def run_case(ctx, case):
     finally:
         sink.close()
     ctx.clause("histories")
+    if case.get("fam"):
+        ctx.clause("histories_" + case["fam"].replace("-", "_"))
     if case.get("relay") and sink.rig is not None:
         ctx.clause("relayed_fragments_unaltered")
         fed = [msgs[mi]["frames"][fi] for mi, fi in case["order"]]
